@@ -353,3 +353,114 @@ Proof.
     + apply Rmult_lt_compat_r; lra.
     + replace (IZR z - 1 + 1) with (IZR z) by lra. apply Rmult_le_compat_r; lra.
 Qed.
+
+(* ------------------------------------------------------------------ time never moves against the direction *)
+(* the times at the step boundaries visited by one call (the state is examined by check_exit at each of them) *)
+Section Trace.
+Variable stepper : R -> R -> R -> R * R * R.
+Hypothesis Hstep : stepper_ok stepper.
+Let c12 : R := 1 / 1000000000000.
+Let c200 : R := c12 / 10 ^ 188.
+Let quiet : nat -> option Z := fun _ => None.
+Variable tmax : R.
+Variable exact : bool.
+
+Fixpoint loop_ts (fuel : nat) (s : @st R) : list R :=
+  let s1 := check_exit RNum c12 c200 tmax false exact true s in
+  if (0 <=? status s1)%Z then [t s1]
+  else match fuel with
+       | O => [t s1]
+       | S f => t s1 :: loop_ts f (do_step stepper quiet s1)
+       end.
+
+Fixpoint mono (sg : R) (l : list R) : Prop :=
+  match l with
+  | a :: ((b :: _) as r) => sg * a <= sg * b /\ mono sg r
+  | _ => True
+  end.
+
+Lemma loop_ts_eq fuel s :
+  loop_ts fuel s = let s1 := check_exit RNum c12 c200 tmax false exact true s in
+                   if (0 <=? status s1)%Z then [t s1]
+                   else match fuel with O => [t s1] | S f => t s1 :: loop_ts f (do_step stepper quiet s1) end.
+Proof. destruct fuel; reflexivity. Qed.
+
+Lemma loop_ts_hd fuel s : exists r, loop_ts fuel s = t s :: r.
+Proof.
+  rewrite loop_ts_eq. cbv zeta. rewrite (check_t RNum c12 c200 tmax exact s).
+  destruct (0 <=? status _)%Z; [exists []; reflexivity|].
+  destruct fuel; [exists []; reflexivity|]. eexists. reflexivity.
+Qed.
+
+(* Invariant of a run in direction sg: dt points in direction sg, OR the target has been reached.
+   check_exit changes dt only to tmax - t in the branch where the next step would overshoot and t <> tmax, where
+   sg*(tmax - t) > 0 provided t has not passed tmax: sg*t <= sg*tmax is part of the invariant. *)
+Definition inv (sg : R) (s : @st R) : Prop :=
+  (status s < 0)%Z /\ dir sg (dt s) /\ sg * t s <= sg * tmax.
+
+Lemma check_keeps_dir sg s : inv sg s ->
+  let s1 := check_exit RNum c12 c200 tmax false exact true s in
+  t s1 = t s /\ ((0 <= status s1)%Z \/ (inv sg s1 /\ sg * (t s1 + dt s1) <= sg * tmax \/ inv sg s1 /\ exact = false)).
+Proof.
+  intros (Hst & Hdir & Hle). cbv zeta. split; [apply (check_t RNum c12 c200 tmax exact s)|].
+  unfold check_exit. apply Z.leb_gt in Hst. rewrite Hst.
+  rewrite (dtsign_dir sg (dt s) Hdir). unfold geb. cbn [nltb nleb neqb nmul nadd nsub nabs nneg none nzero RNum].
+  apply Z.leb_gt in Hst.
+  destruct exact.
+  - destruct (Rleb (tmax * sg) ((t s + dt s) * sg)) eqn:E1.
+    + destruct (Reqb (t s) tmax) eqn:E2; [left; cbn; unfold ST_SUCCESS; lia|].
+      assert (Hne : t s <> tmax) by (unfold Reqb in E2; destruct (Req_EM_T (t s) tmax); [discriminate|assumption]).
+      assert (Hlt2 : sg * t s < sg * tmax).
+      { destruct (Rle_lt_or_eq_dec _ _ Hle) as [H|H]; [exact H|]. exfalso. apply Hne.
+        destruct Hdir as [[-> _]|[-> _]]; lra. }
+      assert (Hd2 : dir sg (tmax - t s)).
+      { destruct Hdir as [[-> Hd]|[-> Hd]]; [left|right]; split; try reflexivity; lra. }
+      destruct (status s =? ST_LAST_STEP)%Z.
+      * destruct (Rltb _ _); [left; cbn; unfold ST_SUCCESS; lia|].
+        right. left. cbn [t dt status]. split; [split; [exact Hst|split; [exact Hd2|exact Hle]]|].
+        destruct Hdir as [[-> Hd]|[-> Hd]]; lra.
+      * right. left. cbn [t dt status]. split; [split; [reflexivity|split; [exact Hd2|exact Hle]]|].
+        destruct Hdir as [[-> Hd]|[-> Hd]]; lra.
+    + assert (Hlt : sg * (t s + dt s) <= sg * tmax).
+      { unfold Rleb in E1. destruct (Rle_dec (tmax * sg) ((t s + dt s) * sg)); [discriminate|]. lra. }
+      destruct (status s =? ST_LAST_STEP)%Z; right; left; cbn [t dt status].
+      * split; [split; [reflexivity|split; [exact Hdir|exact Hle]]|exact Hlt].
+      * split; [split; [exact Hst|split; [exact Hdir|exact Hle]]|exact Hlt].
+  - destruct (Rleb (tmax * sg) (t s * sg)); [left; cbn; unfold ST_SUCCESS; lia|].
+    right. right. split; [split; [exact Hst|split; [exact Hdir|exact Hle]]|reflexivity].
+Qed.
+
+(* with exact finishing every boundary lies between the start and tmax and they are visited in order; without it the
+   boundaries are visited in order (the last one may lie beyond tmax) *)
+Theorem loop_ts_monotone : forall fuel sg s, inv sg s -> mono sg (loop_ts fuel s).
+Proof.
+  induction fuel as [|f IH]; intros sg s Hinv.
+  - rewrite loop_ts_eq. cbv zeta. destruct (0 <=? status _)%Z; exact I.
+  - rewrite loop_ts_eq. cbv zeta.
+    destruct (check_keeps_dir sg s Hinv) as [Ht Hc]. cbv zeta in Ht, Hc.
+    set (s1 := check_exit RNum c12 c200 tmax false exact true s) in *.
+    destruct (0 <=? status s1)%Z eqn:E; [exact I|].
+    apply Z.leb_gt in E.
+    destruct (do_step_gen stepper Hstep s1) as [l' [Es _]].
+    unfold quiet. rewrite Es. fold quiet.
+    set (s2 := mkSt (t s1 + dt s1) (dt s1) l' (status s1) (S (steps s1)) (lfd s1)).
+    destruct (loop_ts_hd f s2) as [r Er].
+    assert (Hhead : forall P : Prop, (sg * t s1 <= sg * t s2) -> mono sg (loop_ts f s2) -> mono sg (t s1 :: loop_ts f s2)).
+    { intros _ H1 H2. rewrite Er in H2 |- *. cbn [mono]. split; assumption. }
+    destruct Hc as [Hc|[[Hi Hle]|[Hi He]]]; [lia| |].
+    + destruct Hi as (Hs1 & Hd1 & Hl1).
+      apply (Hhead True); [subst s2; cbn [t]; destruct Hd1 as [[-> Hd]|[-> Hd]]; lra|].
+      apply IH. subst s2. repeat split; cbn [status dt t]; [exact Hs1|exact Hd1|exact Hle].
+    + destruct Hi as (Hs1 & Hd1 & Hl1).
+      apply (Hhead True); [subst s2; cbn [t]; destruct Hd1 as [[-> Hd]|[-> Hd]]; lra|].
+      (* without exact finishing the state after the step may lie beyond tmax: the next check then stops *)
+      destruct (Rle_dec (sg * (t s1 + dt s1)) (sg * tmax)) as [Hin|Hout].
+      * apply IH. subst s2. repeat split; cbn [status dt t]; assumption.
+      * rewrite loop_ts_eq. cbv zeta.
+        assert (Hstop : (0 <=? status (check_exit RNum c12 c200 tmax false exact true s2))%Z = true).
+        { subst s2. unfold check_exit. rewrite He. cbn [status t dt]. apply Z.leb_gt in Hs1. rewrite Hs1.
+          rewrite (dtsign_dir sg (dt s1) Hd1). unfold geb. cbn [nleb nmul RNum].
+          rewrite Rleb_true by lra. reflexivity. }
+        rewrite Hstop. exact I.
+Qed.
+End Trace.
